@@ -78,11 +78,12 @@ package interpreter
 //@   assigns (bigcell (. n val))
 //@   ensures[C05.num_mul] (= (bigval (. n val)) (* (old (bigval (. n val))) (old (bigval (. o val)))))
 //@ func interpreter.(*scriptNumber).Div
+//@   opt reveal tdiv
 //@   requires (distinct (bigval (. o val)) 0)
 //@   assigns (bigcell (. n val))
 //@   ensures[C05.num_div] (= (bigval (. n val)) (spec.tdiv (old (bigval (. n val))) (old (bigval (. o val)))))
 //@ func interpreter.(*scriptNumber).Mod
-//@   opt reveal tmod
+//@   opt reveal tmod tdiv
 //@   requires (distinct (bigval (. o val)) 0)
 //@   assigns (bigcell (. n val))
 //@   ensures[C05.num_mod] (= (bigval (. n val)) (spec.tmod (old (bigval (. n val))) (old (bigval (. o val)))))
